@@ -303,7 +303,7 @@ impl Part for JoinPart {
             .boxed()
     }
     fn cases(&self, tier: Tier) -> u64 {
-        tier.pick(40_000, 2_000_000)
+        tier.pick(80_000, 2_000_000)
     }
     fn exec(&self, c: &JoinCase, out: &mut CaseOut) -> Result<(), Fail> {
         exec_join(c, out)
@@ -385,7 +385,7 @@ impl Part for ExchangePart {
         (side(0), side(5), any::<bool>()).prop_map(|(a, b, reply)| ExchangeCase { a, b, reply }).boxed()
     }
     fn cases(&self, tier: Tier) -> u64 {
-        tier.pick(25_000, 1_000_000)
+        tier.pick(50_000, 1_000_000)
     }
     fn exec(&self, c: &ExchangeCase, out: &mut CaseOut) -> Result<(), Fail> {
         exec_exchange(c, out)
